@@ -4,7 +4,7 @@ z3 objects never cross process boundaries: `analyse(paths)` must return plain da
 import multiprocessing as mp
 import time
 
-from .core import Ctx, NeedsConcrete, PathAbort, PathResult, explore
+from .core import Ctx, NeedsConcrete, PathAbort, PathResult, PathTimeout, explore
 
 _G = {}
 
@@ -45,14 +45,32 @@ def par_explore(fn, analyse, nprocs=16, frontier=48, tlimit=600.0, ieee_div=Fals
     t0 = time.time()
     pending = [[]]
     done = []
+    import signal
+    import threading
+    use_alarm = threading.current_thread() is threading.main_thread() and hasattr(signal, 'setitimer')
+    phase1_timeout = False
+
+    def _on_alarm(signum, frame):
+        raise PathTimeout()
+    if use_alarm:
+        signal.signal(signal.SIGALRM, _on_alarm)
     # phase 1: breadth-first until the frontier is wide enough
     while pending and len(pending) < frontier and time.time() - t0 < tlimit:
         dec = pending.pop(0)
         ctx = Ctx(dec, ieee_div=ieee_div)
         Ctx.cur = ctx
         try:
-            v = fn(ctx)
+            if use_alarm:
+                signal.setitimer(signal.ITIMER_REAL, max(5.0, tlimit - (time.time() - t0) + 20.0))
+            try:
+                v = fn(ctx)
+            finally:
+                if use_alarm:
+                    signal.setitimer(signal.ITIMER_REAL, 0)
             done.append(PathResult(ctx, 'ok', v))
+        except PathTimeout:
+            phase1_timeout = True
+            break
         except PathAbort:
             pass
         except NeedsConcrete as e:
@@ -64,8 +82,8 @@ def par_explore(fn, analyse, nprocs=16, frontier=48, tlimit=600.0, ieee_div=Fals
         pending.extend(ctx.pending)
     outs = [analyse(done)] if done else []
     total = len(done)
-    exhaustive = True
-    if pending:
+    exhaustive = not phase1_timeout
+    if pending and not phase1_timeout:
         _G.update(fn=fn, analyse=analyse, prefixes=pending, chunk=chunk, t0=t0, tlimit=tlimit, deadline=t0 + 0.5 * tlimit,   # the other half is left for analyse()
                   kw=dict(tlimit=max(10.0, tlimit - (time.time() - t0)), ieee_div=ieee_div, catch=catch, max_paths=max_paths))
         ctx = mp.get_context('fork')
